@@ -409,6 +409,9 @@ def polygonal_land_constraint(
     coordinates_domain_nested_cutout_reordered = []
     field_descriptors_reordered = []
     for idx, domain in enumerate(coordinates_domain_nested_cutout):
+        if len(domain) == 0:
+            # nothing of this list survives the cut-outs; the other lists still hold valid candidates
+            continue
         domain_reordered, f_d_reordered = reorder_domain(domain, field_descriptors[idx])
         coordinates_domain_nested_cutout_reordered.append(domain_reordered)
         field_descriptors_reordered.append(f_d_reordered)
